@@ -5,7 +5,7 @@ from harness.core import cbool, clist, cstr, cz
 
 ID = "C04"
 MODEL_TARGETS = ["C04/Cases.vo"]
-PROOF_TARGETS = ["C04/Gen.vo", "C04/Bridge.vo", "C04/Proofs.vo"]
+PROOF_TARGETS = ["C04/Gen.vo", "C04/Bridge.vo", "C04/Proofs.vo", "C04/SetGet.vo", "C04/State.vo"]
 OBLIGATION_FILES = ["C04/Bridge.v"]
 PROPS_FILE = "C04/Props.v"
 SHARD = 150
@@ -72,6 +72,16 @@ FIT_NOT_RUNNABLE = {
     "ColumnTransformer": "sklearn 1.7 ColumnTransformer._iter has a different signature than 0.24",
 }
 
+# p_params is split into one case per aspect so that a known finding about one aspect of a class
+# cannot hide a new defect in another
+PARAM_ASPECTS = ["get", "roundtrip", "clone", "unknown", "flag"]
+
+# the touched state that was reviewed for each entry of Known.v benign_guard (owner, method)
+BENIGN_GUARD_WHAT = {
+    ("OnlineEnsembleForecaster", "update_predict"):
+        "_cutoff via property cutoff via _detached_cutoff via _predict_moving_cutoff",
+}
+
 APPLY_METHODS = ["predict", "predict_proba", "transform", "inverse_transform", "update",
                  "update_predict", "update_predict_single", "score"]
 
@@ -79,6 +89,25 @@ APPLY_METHODS = ["predict", "predict_proba", "transform", "inverse_transform", "
 def translate(repo):
     from translator import classtable
     return classtable.translate(repo)
+
+
+def _known_lists():
+    """The reviewed lists of coq/C04/Known.v that the Python side needs too (single source of truth:
+    the Coq file; the Bridge theorems are stated over the same definitions)."""
+    import os
+    import re
+    from harness import core
+    src = open(os.path.join(core.ROOT, "coq", "C04", "Known.v")).read()
+    src = re.sub(r"\(\*.*?\*\)", "", src, flags=re.S)
+
+    def body(name):
+        m = re.search(r"Definition %s\b[^:]*:[^=]*:=\s*\[(.*?)\]\s*\." % name, src, re.S)
+        if not m:
+            raise RuntimeError("coq/C04/Known.v: definition %s not found" % name)
+        return m.group(1)
+    vals = re.findall(r'"([^"]*)"', body("identity_validators"))
+    benign = re.findall(r'\(\s*"([^"]*)"\s*,\s*"([^"]*)"\s*,\s*"([^"]*)"\s*\)', body("benign_guard"))
+    return {"validators": vals, "benign_guard": [(o, m) for _c, o, m in benign]}
 
 
 # ------------------------------------------------------------------------------------------------
@@ -276,14 +305,22 @@ def _rand_assignments(rng, t):
 def gen_cases(rng, tier):
     from translator import classtable
     t = _table()
-    ctor, guard, mut = classtable.deviations(t)
+    known = _known_lists()
+    ctor, guard, mut = classtable.deviations(t, known["validators"])
     cases = []
     for d in ctor:
         cases.append(dict(kind="ctor_static", **d))
+    def benign(d):
+        # reported by the conservative analysis, reviewed as compliant (Known.v benign_guard) for
+        # exactly the touched state that was reviewed; the p_apply cases of the same
+        # (class, method) must then confirm NotFittedError on the real object
+        om = (d["owner"], d["method"])
+        return om in known["benign_guard"] and BENIGN_GUARD_WHAT.get(om) == d["what"]
     for d in guard:
-        cases.append(dict(kind="guard_static", **d))
+        cases.append(dict(kind="guard_static", benign=benign(d), **d))
     for d in mut:
         cases.append(dict(kind="mut_static", **d))
+    benign_cm = set((d["cls"], d["method"]) for d in guard if benign(d))
     # dynamic per-class cases: the driver decides what is importable; cases carry module + name
     for k in sorted(t.rows, key=lambda k: t.rows[k]["key"]):
         r = t.rows[k]
@@ -300,11 +337,15 @@ def gen_cases(rng, tier):
         for p, _ in (eff or []):
             if p not in ("*", "**"):
                 cases.append(dict(base, kind="p_ctor", param=p))
-        cases.append(dict(base, kind="p_params"))
+        for aspect in PARAM_ASPECTS:
+            cases.append(dict(base, kind="p_params", aspect=aspect))
         concrete = not (r["name"].startswith("_") or r["name"].startswith("Base"))
         if concrete:
-            for m, _ in r["methods"]:
-                cases.append(dict(base, kind="p_apply", method=m))
+            for m, st in r["methods"]:
+                # owner = class whose body runs for this method (MRO over the class table)
+                for phase in ("fresh", "clone"):
+                    cases.append(dict(base, kind="p_apply", method=m, owner=st[1], phase=phase,
+                                      must_confirm=(r["key"], m) in benign_cm))
             cases.append(dict(base, kind="p_fit"))
     # model cases
     per = 1 if tier == "quick" else 30
@@ -322,6 +363,9 @@ def gen_cases(rng, tier):
                               and any(p == ["estimators"] for p, _ in asg))})
         for _ in range(2 * per):
             cases.append({"kind": "tree_clone", "tree": _tree(rng, f)})
+        for _ in range(3 * per):
+            # est.set_params(**est.get_params(deep=True)) on a random composition
+            cases.append({"kind": "tree_setget", "tree": _tree(rng, f)})
     fc_m = ["predict", "update", "update_predict_single", "score"]
     hist_classes = {"NaiveForecaster": fc_m, "PolynomialTrendForecaster": fc_m,
                     "EnsembleForecaster": fc_m,
@@ -459,7 +503,9 @@ def _required_args(name):
     if name == "OptionalPassthrough":
         from sktime.transformations.series.cos import CosineTransformer
         return {"transformer": CosineTransformer()}
-    if name in ("BaseStrategy", "BaseSupervisedLearningStrategy", "TSCStrategy", "TSRStrategy"):
+    if name == "TSRStrategy":
+        return {"estimator": LinearRegression()}
+    if name in ("BaseStrategy", "BaseSupervisedLearningStrategy", "TSCStrategy"):
         from sktime.classification.dictionary_based import IndividualBOSS
         return {"estimator": IndividualBOSS()}
     if "MetricFunctionWrapper" in name:
@@ -475,7 +521,8 @@ def _small_config(name):
     """Optional arguments that keep fitting fast on the tiny data (never required)."""
     return {
         "BOSSEnsemble": {"max_ensemble_size": 3, "random_state": 0},
-        "ContractableBOSS": {"n_parameter_samples": 4, "max_ensemble_size": 2, "random_state": 0},
+        "ContractableBOSS": {"n_parameter_samples": 4, "max_ensemble_size": 2, "random_state": 0,
+                             "time_limit": 0.0005},
         "IndividualBOSS": {"window_size": 8, "word_length": 4},
         "ShapeletTransformClassifier": {"time_contract_in_mins": 0.02, "n_estimators": 5},
         "ContractedShapeletTransform": {"time_contract_in_mins": 0.02, "verbose": 0},
@@ -551,6 +598,29 @@ def _peq(a, b, depth=0):
         return bool(np.all(r))
     except Exception:
         return False
+
+
+def _immutable(x, depth=0):
+    import numpy as np
+    if x is None or isinstance(x, (bool, int, float, complex, str, bytes, np.generic)):
+        return True
+    if isinstance(x, (tuple, frozenset)) and depth < 4:
+        return all(_immutable(y, depth + 1) for y in x)
+    return False
+
+
+def _unchanged(a, b, depth=0):
+    """A parameter is unchanged if it is still the same object, or - for immutable values, whose
+    identity is not observable - an equal value of the same type, or a list/tuple of the same type
+    and length whose elements are pairwise unchanged (a copied container holding the very same
+    objects: scikit-learn 1.7's FeatureUnion.fit does `self.transformer_list = list(...)`)."""
+    if a is b:
+        return True
+    if _immutable(a):
+        return type(a) is type(b) and _peq(a, b)
+    if isinstance(a, (list, tuple)) and type(a) is type(b) and len(a) == len(b) and depth < 4:
+        return all(_unchanged(x, y, depth + 1) for x, y in zip(a, b))
+    return False
 
 
 def _call_apply(est, fam, method):
@@ -677,6 +747,7 @@ def _run_p_ctor(case, cls):
 
 def _run_p_params(case, cls):
     from sklearn.base import clone
+    aspect = case["aspect"]
     out = {}
     try:
         est, kw = _make(cls, case["name"])
@@ -689,44 +760,66 @@ def _run_p_params(case, cls):
     except NotImplementedError:
         return {"skip": "abstract class (get_params not implemented)"}
     except Exception as e:
-        return {"get_params": "raised:" + type(e).__name__}
-    out["keys_equal_signature"] = sorted(shallow) == sorted(names)
-    out["extra_keys"] = sorted(set(shallow) ^ set(names))[:5]
-    out["args_returned"] = all(shallow.get(k) is v for k, v in kw.items())
-    out["deep_contains_shallow"] = all(k in deep and deep[k] is shallow[k] for k in shallow)
-    # set_params(**get_params()) on a second instance
-    try:
-        e2, _ = _make(cls, case["name"])
-        before = e2.get_params(deep=False)
-        r = e2.set_params(**e2.get_params())
-        after = e2.get_params(deep=False)
-        out["set_get_roundtrip"] = (r is e2 and set(after) == set(before)
-                                    and all(_peq(after[k], before[k]) for k in before))
-    except Exception as e:
-        out["set_get_roundtrip"] = "raised:" + type(e).__name__
-    try:
-        c = clone(est)
-        cp = c.get_params(deep=False)
-        out["clone_equal"] = (type(c) is type(est) and c is not est and set(cp) == set(shallow)
-                              and all(_peq(cp[k], shallow[k]) for k in shallow))
-        out["clone_fitted"] = getattr(c, "is_fitted", None) if hasattr(c, "is_fitted") else "n/a"
-    except Exception as e:
-        out["clone_equal"] = "raised:%s: %s" % (type(e).__name__, str(e)[-60:])
-    try:
-        e3, _ = _make(cls, case["name"])
-        e3.set_params(zz_unknown_parameter=1)
-        out["unknown_rejected"] = "accepted"
-    except ValueError:
-        out["unknown_rejected"] = "ValueError"
-    except Exception as e:
-        out["unknown_rejected"] = type(e).__name__
-    out["fresh_fitted"] = getattr(est, "is_fitted") if hasattr(est, "is_fitted") else "n/a"
+        if aspect == "get":
+            return {"get_params": "raised:" + type(e).__name__}
+        return {"skip": "get_params raises (reported by the 'get' aspect of this class)"}
+    if aspect == "get":
+        out["keys_equal_signature"] = sorted(shallow) == sorted(names)
+        out["extra_keys"] = sorted(set(shallow) ^ set(names))[:5]
+        out["args_returned"] = all(shallow.get(k) is v for k, v in kw.items())
+        out["deep_contains_shallow"] = all(k in deep and deep[k] is shallow[k] for k in shallow)
+    elif aspect == "roundtrip":
+        # set_params(**get_params()) on a second instance
+        try:
+            e2, _ = _make(cls, case["name"])
+            before = e2.get_params(deep=False)
+            r = e2.set_params(**e2.get_params())
+            after = e2.get_params(deep=False)
+            out["set_get_roundtrip"] = (r is e2 and set(after) == set(before)
+                                        and all(_peq(after[k], before[k]) for k in before))
+        except Exception as e:
+            out["set_get_roundtrip"] = "raised:" + type(e).__name__
+    elif aspect == "clone":
+        try:
+            c = clone(est)
+            cp = c.get_params(deep=False)
+            out["clone_equal"] = (type(c) is type(est) and c is not est and set(cp) == set(shallow)
+                                  and all(_peq(cp[k], shallow[k]) for k in shallow))
+            # clone must not share mutable parameter objects (estimators, lists, dicts) with the
+            # original: changing the clone must not change the original
+            out["clone_shares"] = sorted(k for k in shallow if k in cp and cp[k] is shallow[k]
+                                         and _is_mutable_param(shallow[k]))
+        except Exception as e:
+            out["clone_equal"] = "raised:%s: %s" % (type(e).__name__, str(e)[-60:])
+    elif aspect == "unknown":
+        try:
+            e3, _ = _make(cls, case["name"])
+            e3.set_params(zz_unknown_parameter=1)
+            out["unknown_rejected"] = "accepted"
+        except ValueError:
+            out["unknown_rejected"] = "ValueError"
+        except Exception as e:
+            out["unknown_rejected"] = type(e).__name__
+    elif aspect == "flag":
+        out["fresh_fitted"] = getattr(est, "is_fitted") if hasattr(est, "is_fitted") else "n/a"
+        try:
+            c = clone(est)
+            out["clone_fitted"] = getattr(c, "is_fitted", None) if hasattr(c, "is_fitted") else "n/a"
+        except Exception:
+            out["clone_fitted"] = "n/a"      # a failing clone is reported by the 'clone' aspect
+    else:
+        raise AssertionError(aspect)
     return out
+
+
+def _is_mutable_param(x):
+    """Parameter values whose sharing between an estimator and its clone is observable."""
+    return hasattr(x, "get_params") and not isinstance(x, type) or isinstance(x, (list, dict, set))
 
 
 def _run_p_apply(case, cls):
     from sklearn.base import clone
-    name, m = case["name"], case["method"]
+    name, m, phase = case["name"], case["method"], case["phase"]
     fam = _family(cls)
     try:
         est, _ = _make(cls, name)
@@ -734,23 +827,23 @@ def _run_p_apply(case, cls):
         return {"skip": "constructor raised %s" % type(e).__name__}
     if not hasattr(est, "is_fitted"):
         return {"skip": "no fitted state"}
-    out = {"family": fam, "fresh": _call_apply(est, fam, m)}
-    out["fresh_still_unfitted"] = est.is_fitted is False
-    if name in FIT_NOT_RUNNABLE:
-        out["clone"] = "skip: " + FIT_NOT_RUNNABLE[name]
+    if phase == "fresh":
+        out = {"family": fam, "fresh": _call_apply(est, fam, m)}
+        out["fresh_still_unfitted"] = est.is_fitted is False
         return out
+    if name in FIT_NOT_RUNNABLE:
+        return {"skip": "fit not runnable here: " + FIT_NOT_RUNNABLE[name]}
     fitted, err = _fitted_instance(cls, name, fam)
     if fitted is None:
-        out["clone"] = "fit-failed: " + err
-        return out
+        return {"family": fam, "clone": "fit-failed: " + err}
     try:
         c = clone(fitted)
     except Exception as e:
-        out["clone"] = "clone-failed: " + type(e).__name__
-        return out
-    out["clone_is_fitted"] = c.is_fitted
+        return {"family": fam, "clone": "clone-failed: " + type(e).__name__}
+    out = {"family": fam, "clone_is_fitted": c.is_fitted}
     out["clone"] = _call_apply(c, fam, m)
-    out["fitted"] = _call_apply(fitted, fam, m) if out["fresh"] != "absent" else "absent"
+    out["clone_still_unfitted"] = c.is_fitted is False
+    out["original_still_fitted"] = fitted.is_fitted is True
     return out
 
 
@@ -778,7 +871,7 @@ def _run_p_fit(case, cls):
     except Exception as e:
         return {"fit": "raised:%s: %s" % (type(e).__name__, str(e)[:100])}
     after = est.get_params(deep=False)
-    changed = [k for k in before if k not in after or after[k] is not before[k]]
+    changed = [k for k in before if k not in after or not _unchanged(before[k], after[k])]
     mutated = []
     if snap is not None:
         mutated = [k for k in before if k in after and after[k] is before[k] and not _peq(after[k], snap[k])]
@@ -900,10 +993,22 @@ def _run_tree(case):
             out["after"] = _read(est)
         except (ValueError, AttributeError, TypeError) as e:
             out["err"] = type(e).__name__
+    elif k == "tree_setget":
+        d = est.get_params(deep=True)
+        out["dict"] = [[key.split("__"), _read_value(v)] for key, v in d.items()]
+        try:
+            r = est.set_params(**d)
+            out["returns_self"] = r is est
+            out["after"] = _read(est)
+        except (ValueError, AttributeError, TypeError) as e:
+            out["err"] = type(e).__name__
     elif k == "tree_clone":
         c = clone(est)
         out["clone"] = _read(c)
         out["distinct_object"] = c is not est
+        # no estimator / component list anywhere below the clone is an object of the original
+        d0, d1 = est.get_params(deep=True), c.get_params(deep=True)
+        out["shared"] = sorted(k for k in d0 if k in d1 and d1[k] is d0[k] and _is_mutable_param(d0[k]))
         out["clone_fitted"] = c.is_fitted
     return out
 
@@ -974,12 +1079,18 @@ def oracle(case, out):
         return "ctor-not-verbatim: %s.%s %s%s" % (
             case["cls"], case["param"], case["how"],
             (" (inherited by %s)" % ", ".join(case["via"][:4])) if case["via"] else "")
+    if k == "guard_static" and case.get("benign"):
+        return None
     if k == "guard_static":
         return "guard-not-first: %s.%s (body of %s): %s" % (case["cls"], case["method"], case["owner"],
                                                             case["what"])
     if k == "mut_static":
         return "param-reassigned: %s.%s reaches code of %s assigning self.%s" % (
             case["cls"], case["method"], case["owner"], case["param"])
+    if k == "p_apply" and case.get("must_confirm") and ("skip" in out or out.get("fresh") == "absent"
+                                                       or out.get("clone") == "absent"):
+        return ("benign-guard-unconfirmed: %s.%s is on the reviewed benign list of coq/C04/Known.v but "
+                "could not be exercised here: %s" % (case["cls"], case["method"], out))
     if "skip" in out or "not_in_model" in out:
         return None
     if k == "p_ctor":
@@ -994,40 +1105,53 @@ def oracle(case, out):
                     case["cls"], case["param"], tag, pr[tag + ":other"])
         return None
     if k == "p_params":
-        if "get_params" in out:
-            return "get-params-fails: %s.get_params() %s" % (case["cls"], out["get_params"])
-        if not out["keys_equal_signature"]:
-            return "get-params-keys: %s: keys differ from the signature by %s" % (case["cls"], out["extra_keys"])
-        if not out["args_returned"]:
-            return "get-after-construct: %s does not return the arguments it was given" % case["cls"]
-        if not out["deep_contains_shallow"]:
-            return "get-deep-shallow: %s" % case["cls"]
-        if out["set_get_roundtrip"] is not True:
-            return "set-get-roundtrip: %s.set_params(**get_params()): %s" % (case["cls"], out["set_get_roundtrip"])
-        if out["clone_equal"] is not True:
-            return "clone-params: clone(%s()): %s" % (case["cls"], out["clone_equal"])
-        if out["unknown_rejected"] != "ValueError":
-            return "unknown-name: %s.set_params(zz_unknown_parameter=1): %s" % (case["cls"], out["unknown_rejected"])
-        if out["fresh_fitted"] not in (False, "n/a"):
-            return "fresh-is-fitted: %s().is_fitted = %r" % (case["cls"], out["fresh_fitted"])
-        if out.get("clone_fitted") not in (False, "n/a"):
-            return "clone-is-fitted: clone(%s()).is_fitted = %r" % (case["cls"], out.get("clone_fitted"))
+        asp = case["aspect"]
+        if asp == "get":
+            if "get_params" in out:
+                return "get-params-fails: %s.get_params() %s" % (case["cls"], out["get_params"])
+            if not out["keys_equal_signature"]:
+                return "get-params-keys: %s: keys differ from the signature by %s" % (case["cls"], out["extra_keys"])
+            if not out["args_returned"]:
+                return "get-after-construct: %s does not return the arguments it was given" % case["cls"]
+            if not out["deep_contains_shallow"]:
+                return "get-deep-shallow: %s" % case["cls"]
+        elif asp == "roundtrip":
+            if out["set_get_roundtrip"] is not True:
+                return "set-get-roundtrip: %s.set_params(**get_params()): %s" % (case["cls"], out["set_get_roundtrip"])
+        elif asp == "clone":
+            if out["clone_equal"] is not True:
+                return "clone-params: clone(%s()): %s" % (case["cls"], out["clone_equal"])
+            if out["clone_shares"]:
+                return "clone-shares: clone(%s()) shares the mutable parameter object(s) %s" % (
+                    case["cls"], out["clone_shares"])
+        elif asp == "unknown":
+            if out["unknown_rejected"] != "ValueError":
+                return "unknown-name: %s.set_params(zz_unknown_parameter=1): %s" % (case["cls"], out["unknown_rejected"])
+        elif asp == "flag":
+            if out["fresh_fitted"] not in (False, "n/a"):
+                return "fresh-is-fitted: %s().is_fitted = %r" % (case["cls"], out["fresh_fitted"])
+            if out.get("clone_fitted") not in (False, "n/a"):
+                return "clone-is-fitted: clone(%s()).is_fitted = %r" % (case["cls"], out.get("clone_fitted"))
         return None
     if k == "p_apply":
         m = case["method"]
-        if out["fresh"] not in ("NotFittedError", "absent"):
-            return "not-fitted-error: %s().%s before fit: %s" % (case["cls"], m, out["fresh"])
-        if not out["fresh_still_unfitted"]:
-            return "apply-sets-fitted: %s().%s before fit left is_fitted True" % (case["cls"], m)
-        c = out.get("clone")
-        if isinstance(c, str) and c.startswith("skip"):
+        if case["phase"] == "fresh":
+            if out["fresh"] not in ("NotFittedError", "absent"):
+                return "not-fitted-error: %s().%s before fit: %s" % (case["cls"], m, out["fresh"])
+            if not out["fresh_still_unfitted"]:
+                return "apply-sets-fitted: %s().%s before fit left is_fitted True" % (case["cls"], m)
             return None
+        c = out.get("clone")
         if isinstance(c, str) and (c.startswith("fit-failed") or c.startswith("clone-failed")):
             return "fit-for-clone: %s: %s" % (case["cls"], c)
         if out.get("clone_is_fitted") is not False:
             return "clone-is-fitted: clone(fitted %s).is_fitted = %r" % (case["cls"], out.get("clone_is_fitted"))
         if c not in ("NotFittedError", "absent"):
             return "not-fitted-error: clone(fitted %s).%s: %s" % (case["cls"], m, c)
+        if not out["clone_still_unfitted"]:
+            return "apply-sets-fitted: clone(fitted %s).%s left is_fitted True" % (case["cls"], m)
+        if not out["original_still_fitted"]:
+            return "clone-unfits-original: clone(fitted %s) changed the original's fitted flag" % case["cls"]
         return None
     if k == "p_fit":
         if out["fit"] != "ok":
@@ -1068,9 +1192,21 @@ def oracle(case, out):
             return "nested-set: %s: result differs from list -> component -> parameter order" % (
                 ["__".join(p) for p, _ in case["asg"]])
         return None
+    if k == "tree_setget":
+        if out["built"] != _norm(case["tree"]):
+            return "get-after-construct: tree read back differs from the constructor arguments"
+        if "err" in out:
+            return "set-get-roundtrip: set_params(**get_params()) raised %s" % out["err"]
+        if not out["returns_self"]:
+            return "set-returns-self"
+        if out["after"] != _norm(case["tree"]):
+            return "set-get-roundtrip: set_params(**get_params()) changed the parameters"
+        return None
     if k == "tree_clone":
         if out["clone"] != _norm(case["tree"]) or not out["distinct_object"]:
             return "clone-params: clone differs from the original tree"
+        if out["shared"]:
+            return "clone-shares: the clone shares parameter objects with the original: %s" % out["shared"][:4]
         if out["clone_fitted"] is not False:
             return "clone-is-fitted"
         return None
@@ -1180,7 +1316,7 @@ def nontrivial(case, out):
         return True
     if "skip" in out or "not_in_model" in out:
         return False
-    if k in ("tree_get", "tree_set", "tree_clone"):
+    if k in ("tree_get", "tree_set", "tree_clone", "tree_setget"):
         return _depth(case["tree"]) >= 2
     if k == "p_ctor":
         return any(v in ("ok", "changed", "missing") for v in out["probes"].values())
@@ -1194,7 +1330,7 @@ def shrink(case):
         if len(asg) > 1:
             for i in range(len(asg)):
                 yield dict(case, asg=asg[:i] + asg[i + 1:])
-    if k in ("tree_get", "tree_set", "tree_clone"):
+    if k in ("tree_get", "tree_set", "tree_clone", "tree_setget"):
         t = case["tree"]
         for i, (key, v) in enumerate(t["ps"]):
             if "l" in v and len(v["l"]) > 1:
@@ -1265,6 +1401,10 @@ def coq_case(case, out):
     if k == "tree_set":
         impl = "None" if "err" in out else "(Some %s)" % _cest(out["after"])
         return "CSet %s %s %s" % (_cest(_norm(case["tree"])), _ckvs(case["asg"]), impl)
+    if k == "tree_setget":
+        # the dict is the implementation's own get_params(deep=True), in its own key order
+        impl = "None" if "err" in out else "(Some %s)" % _cest(out["after"])
+        return "CSet %s %s %s" % (_cest(_norm(case["tree"])), _ckvs(out["dict"]), impl)
     if k == "tree_clone":
         return "CClone %s %s" % (_cest(_norm(case["tree"])), _cest(out["clone"]))
     if k == "tree_hist":
@@ -1289,6 +1429,9 @@ def coq_model_term(case):
         return "get_params sk_meta %s %s" % (cbool(case["deep"]), _cest(_norm(case["tree"])))
     if k == "tree_set":
         return "set_params sk_meta %s %s" % (_cest(_norm(case["tree"])), _ckvs(case["asg"]))
+    if k == "tree_setget":
+        t = _cest(_norm(case["tree"]))
+        return "set_params sk_meta %s (get_params sk_meta true %s)" % (t, t)
     if k == "tree_clone":
         return "clone_est %s" % _cest(_norm(case["tree"]))
     if k == "tree_hist":
@@ -1313,7 +1456,7 @@ def distribution(cases, results):
         elif k == "tree_set":
             d["tree_set:%s" % ("rejected" if "err" in o else "accepted")] += 1
             d["tree_set:keys=%d" % len(c["asg"])] += 1
-        elif k in ("tree_get", "tree_clone"):
+        elif k in ("tree_get", "tree_clone", "tree_setget"):
             d["%s:depth=%d" % (k, _depth(c["tree"]))] += 1
         elif k == "p_apply":
             d["p_apply:fresh=%s" % o.get("fresh")] += 1
